@@ -705,6 +705,22 @@ def check_ds(case):
                           % (krdata.hex(), got, exp)))
         return probs, "keytag:" + ("ok-alg1" if alg == 1 else "ok-carry" if sum(
             (c << 8 if i % 2 == 0 else c) for i, c in enumerate(krdata)) > 0xFFFF else "ok"), ("tag", krdata)
+    if path == "to_cdnskey_rdataset":
+        # key-free conversion DNSKEY RRset -> CDNSKEY RRset (RFC 7344 s3.2: same RDATA, type 60)
+        try:
+            res = dns.dnssec.dnskey_rdataset_to_cdnskey_rdataset(dns.rdataset.from_rdata(300, lkey))
+        except Exception as e:
+            return [("C15/ds/to_cdnskey_rdataset/" + crash_sig(e), "key %s: %s" % (krdata.hex(), e))], "crash", None
+        for r in res:
+            if r.to_wire() != krdata:
+                probs.append(("C15/ds/to_cdnskey_rdataset/rdata-changed", "%s -> %s" % (krdata.hex(), r.to_wire().hex())))
+            if int(res.rdtype) != 60 or int(r.rdtype) != 60:
+                probs.append(("C15/ds/to_cdnskey_rdataset/result-rdtype-%s-instead-of-CDNSKEY" % dns.rdatatype.to_text(res.rdtype),
+                              "dnskey_rdataset_to_cdnskey_rdataset returned an rdataset of type %s"
+                              % dns.rdatatype.to_text(res.rdtype)))
+        if len(res) != 1 or res.ttl != 300:
+            probs.append(("C15/ds/to_cdnskey_rdataset/shape", "len %d ttl %d" % (len(res), res.ttl)))
+        return probs, "ds:ok:to_cdnskey_rdataset" if not probs else "BAD", ("cdnskey", krdata)
     if not tag_defined:
         return [], "ds:alg1-short-key-undefined", None
     exp = ref.ds_rdata(owner_l, krdata, dt)
@@ -776,8 +792,8 @@ def check_ds(case):
 
 
 def ds_cases(quick, shard):
-    lens = [0, 1, 2, 3, 4, 5, 6, 7, 8, 9, 64, 65] if quick else list(range(0, 20)) + [63, 64, 65, 66, 127, 128, 129, 255, 256, 257]
-    pats = ["ff", "inc"] if quick else ["ff", "inc", "zero", "hi"]
+    lens = [0, 1, 2, 3, 4, 5, 6, 7, 8, 9, 64, 65] if quick else list(range(0, 13)) + [63, 64, 65, 66, 255, 256, 257]
+    pats = ["ff", "inc"] if quick else ["ff", "inc", "hi"]
     algs = [1, 8, 13, 15]
     flagsv = [256, 257] if quick else [256, 257, 0, 0xFFFF]
     protos = [3] if quick else [3, 255]
@@ -790,6 +806,7 @@ def ds_cases(quick, shard):
         base = {"part": "ds", "flags": flags, "proto": proto, "alg": alg, "klen": klen, "pat": pat}
         for keytype in ("DNSKEY", "CDNSKEY"):
             yield dict(base, owner=".", dt=2, path="key_id", keytype=keytype)
+        yield dict(base, owner=".", dt=2, path="to_cdnskey_rdataset", keytype="DNSKEY")
         for owner in DS_OWNERS:
             for dt, _ in DS_DIGESTS:
                 for path in paths:
@@ -941,17 +958,17 @@ ZM_BASE = [
 ]
 ZM_OPTIONS = [
     ("apex-zonemd", [zrr("@", 3600, RR_ZONEMD(1, 1, 1, "00" * 48))]),
-    ("apex-zonemd-2", [zrr("@", 3600, RR_ZONEMD(1, 1, 2, "11" * 64)), zrr("@", 3600, RR_ZONEMD(1, 240, 241, "22" * 12))]),
     ("apex-rrsig-zonemd", [zrr("@", 3600, RR_RRSIG("ZONEMD", 63))]),
     ("apex-rrsig-soa", [zrr("@", 3600, RR_RRSIG("SOA", 6, "EXAMPLE.org."))]),
     ("www-a", [zrr("Www", 300, RR_A("10.0.0.2")), zrr("WWW", 300, RR_A("10.0.0.1"))]),
     ("mail-mx", [zrr("mail", 600, RR_MX(10, "B.Example.ORG.")), zrr("mail", 600, RR_MX(10, "a")),
                  zrr("mail", 600, RR_MX(10, "C.Other."))]),
-    ("delegation+glue", [zrr("sub", 86400, RR_NS("Ns.Sub")), zrr("ns.sub", 86400, RR_A("192.0.2.53"))]),
     ("nonapex-zonemd", [zrr("zm.sub", 60, RR_ZONEMD(7, 1, 1, "33" * 48))]),
-    ("nonapex-rrsig-zonemd", [zrr("zm.sub", 60, RR_RRSIG("ZONEMD", 63))]),
     ("upper-owner", [zrr("UPPER", 300, RR_TXT("Text")), zrr("a.UPPER", 300, RR_SVCB("Svc.Example.ORG.")),
                      zrr("\\192\\223\\064\\091Q", 300, RR_TXT("high octets are not letters"))]),
+    ("delegation+glue", [zrr("sub", 86400, RR_NS("Ns.Sub")), zrr("ns.sub", 86400, RR_A("192.0.2.53"))]),
+    ("apex-zonemd-2", [zrr("@", 3600, RR_ZONEMD(1, 1, 2, "11" * 64)), zrr("@", 3600, RR_ZONEMD(1, 240, 241, "22" * 12))]),
+    ("nonapex-rrsig-zonemd", [zrr("zm.sub", 60, RR_RRSIG("ZONEMD", 63))]),
     ("wild", [zrr("*.w", 300, RR_TXT("wild")), zrr("Z", 1, RR_GEN("00")), zrr("Z", 1, RR_GEN(""))]),
     ("nsec", [zrr("@", 5, RR_NSEC("Mail.Example.ORG.")), zrr("@", 5, RR_RRSIG("NSEC", 47))]),
 ]
@@ -1039,13 +1056,13 @@ def work_zonemd(task, col):
             for zcls, _c in ZONE_CLASSES:
                 for alg in (1, 2):
                     case = {"part": "zonemd", "bits": bits, "rel": rel, "zcls": zcls, "alg": alg,
-                            "verify": (alg == 1 or not quick)}
+                            "verify": alg == 1}
                     probs, outcome, key = check_zonemd(case)
                     col.count("evaluations")
                     col.count("zonemd_cases")
                     col.outcome("zonemd/" + outcome)
                     col.nontrivial(("zm", key))
-                    if bits == 0b101101101 and alg == 1:
+                    if bits == 0b01111101 and alg == 1:
                         col.sample({"part": "zonemd", "zone": zone_text(zm_rrs(bits)), "rel": rel, "zcls": zcls,
                                     "outcome": outcome}, limit=1)
                     for s, w in probs:
@@ -1068,10 +1085,10 @@ NS_OPTIONS = [
     ("sub/A(glue at cut)", [zrr("sub", 300, RR_A("10.0.0.9"))]),
     ("x.sub/A(glue)", [zrr("x.sub", 300, RR_A("10.0.0.3"))]),
     ("d.sub/NS(nested)", [zrr("d.sub", 300, RR_NS("x.Sub"))]),
-    ("Z/A", [zrr("Z", 300, RR_A("10.0.0.4"))]),
+    ("Z/A+RRSIG(A)", [zrr("Z", 300, RR_A("10.0.0.4")), zrr("Z", 300, RR_RRSIG("A", 1))]),
     ("tub/NS", [zrr("tub", 300, RR_NS("Ns.Elsewhere."))]),
-    ("b.a/CAA", [zrr("b.a", 300, RR_CAA())]),
     # thorough only below
+    ("b.a/CAA", [zrr("b.a", 300, RR_CAA())]),
     ("sub/AAAA(glue at cut)", [zrr("sub", 300, RR_AAAA())]),
     ("e.d.sub/A", [zrr("e.d.sub", 300, RR_A("10.0.0.5"))]),
     ("@/MX", [zrr("@", 300, RR_MX(10, "Mail"))]),
@@ -1080,7 +1097,7 @@ NS_OPTIONS = [
     ("subz/A", [zrr("subz", 300, RR_A("10.0.0.7")), zrr("\\000.sub", 300, RR_A("10.0.0.8"))]),
     ("a/RRSIG(A)+\\192/TXT", [zrr("a", 300, RR_RRSIG("A", 1)), zrr("\\192\\223", 300, RR_TXT("hi"))]),
 ]
-NS_NQUICK = 11
+NS_NQUICK = 10
 
 
 def ns_rrs(bits):
@@ -1356,7 +1373,7 @@ def run(ctx):
     for it in its:
         tasks.append(("nsec3", [it], q))
     # zonemd
-    zm_n = 9 if q else len(ZM_OPTIONS)
+    zm_n = 8 if q else len(ZM_OPTIONS)
     zm_all = range(1 << zm_n)
     for c in chunks(zm_all, 32 if q else 128):
         tasks.append(("zonemd", c, q))
@@ -1364,10 +1381,14 @@ def run(ctx):
     ns_n = NS_NQUICK if q else len(NS_OPTIONS)
     ns_all = list(range(1 << NS_NQUICK))
     if not q:
-        # full product over the quick universe x every <=2-subset of the thorough-only options
+        # full product over the quick universe x (none or one) of the thorough-only groups, plus every
+        # pair of thorough-only groups on the delegation-related part of the universe (groups 3..7)
         nx = len(NS_OPTIONS) - NS_NQUICK
-        extras = [0] + [1 << i for i in range(nx)] + [(1 << i) | (1 << j) for i in range(nx) for j in range(i)]
-        ns_all = [b | (x << NS_NQUICK) for x in extras for b in ns_all]
+        singles = [0] + [1 << i for i in range(nx)]
+        pairs = [(1 << i) | (1 << j) for i in range(nx) for j in range(i)]
+        deleg = [b << 3 for b in range(32)]
+        ns_all = [b | (x << NS_NQUICK) for x in singles for b in ns_all] + \
+                 [b | (x << NS_NQUICK) for x in pairs for b in deleg]
     for c in chunks(ns_all, 64 if q else 512):
         tasks.append(("nsec", c, q))
     ctx.extra["bounds"] = {
@@ -1377,12 +1398,13 @@ def run(ctx):
         "rrsig": {"rrsets": len(RRSETS), "owners": len(owners), "signers": len(SIGNERS_Q if q else SIGNERS_T),
                   "labels": "0..owner labels+1" + ("" if q else " and 255"), "original_ttl": [300, 86400],
                   "forms": 2, "origin_modes": 3},
-        "ds": {"key_lengths": "0-9,64,65" if q else "0-19,63-66,127-129,255-257", "algorithms": [1, 8, 13, 15],
-               "digests": [1, 2, 4], "owners": len(DS_OWNERS), "entry_points": 7},
+        "ds": {"key_lengths": "0-9,64,65" if q else "0-12,63-66,255-257", "algorithms": [1, 8, 13, 15],
+               "digests": [1, 2, 4], "owners": len(DS_OWNERS), "entry_points": 8},
         "nsec3": {"names": len(N3_NAMES), "salts": len(N3_SALTS), "iterations": its},
         "zonemd": {"optional_rrset_groups": zm_n, "zones": 1 << zm_n, "x": "relativize(2) x zone classes(3) x hash(2)"},
         "nsec": {"optional_rrset_groups": ns_n, "zones": len(ns_all),
                  "enumeration": "full product of %d groups" % NS_NQUICK + ("" if q else
-                                " x every subset of size <= 2 of the %d remaining groups" % (len(NS_OPTIONS) - NS_NQUICK)), "x": "relativize(2) x zone classes(3)"},
+                                " x (none|one) of the %d remaining groups + all pairs of those on the 5 "
+                                "delegation groups" % (len(NS_OPTIONS) - NS_NQUICK)), "x": "relativize(2) x zone classes(3)"},
     }
     ctx.pmap(worker, tasks)
